@@ -1,11 +1,14 @@
 #!/bin/sh
 # usage: tools/seed_matrix.sh <seed-id>   — runs ALL quick checks against the seeded change in private
-# copies of /verif and /repo (so several can run side by side); writes seeded/<id>/matrix.json
+# copies of /verif and /repo (so several can run side by side); writes seeded/<id>/matrix.json.
+# SNAP=<dir> takes the machinery from a frozen copy of /verif (tools/seed_snapshot.sh makes one under /tmp), so that
+# /verif can be worked on while a long matrix run is under way; results always go to /verif/seeded/<id>/.
 id="$1"
 V=/verif
+S=${SNAP:-/verif}
 W=/tmp/seedrun/$id
 rm -rf "$W"; mkdir -p "$W"
-cp -r $V "$W/verif" && rm -rf "$W/verif/.git" "$W/verif/replays" "$W/verif/evidence"
+cp -r $S "$W/verif" && rm -rf "$W/verif/.git" "$W/verif/replays" "$W/verif/evidence"
 git -C /repo worktree add -q "$W/repo" HEAD || exit 2
 git -C "$W/repo" apply "$V/seeded/$id/patch.diff" || { echo "patch does not apply"; git -C /repo worktree remove --force "$W/repo"; exit 2; }
 out="$V/seeded/$id/matrix.json"
